@@ -1,2 +1,3 @@
 SPECIFICATION Spec
 INVARIANTS OnlyFromPathOrSNI Lowercased ValidLabelOrError PlainAndDNSCryptNever StrictRejectsForeign InvalidNeverSilent NonEmptyOutcome
+PROPERTIES HistoryIndependent
